@@ -138,6 +138,7 @@ Proof.
   split; [apply invb_sound; vm_compute; reflexivity|]. split; [apply invb_sound; vm_compute; reflexivity|].
   split; [vm_compute; reflexivity | refute_out].
 Qed.
+Print Assumptions C19_CalcKriging_single_target_refuted.
 
 (* ... and after a SUCCESSFUL krigtest the Z locator of dbout designates a deleted column *)
 Theorem C19_CalcKriging_single_target_success_refuted : exists din dout s' u,
@@ -148,6 +149,7 @@ Proof.
   split; [apply invb_sound; vm_compute; reflexivity|]. split; [apply invb_sound; vm_compute; reflexivity|].
   split; [vm_compute; reflexivity|]. split; [vm_compute; left; reflexivity|]. split; vm_compute; reflexivity.
 Qed.
+Print Assumptions C19_CalcKriging_single_target_success_refuted.
 
 (* DGM: _preprocess moves the X locators of dbin to temporary centred copies; only _postprocess restores them *)
 Theorem C19_CalcKriging_dgm_refuted : exists din dout fs fk s',
@@ -158,6 +160,7 @@ Proof.
   split; [apply invb_sound; vm_compute; reflexivity|]. split; [apply invb_sound; vm_compute; reflexivity|].
   split; [vm_compute; reflexivity|]. split; [refute_out | vm_compute; discriminate].
 Qed.
+Print Assumptions C19_CalcKriging_dgm_refuted.
 
 (* CalcAnamTransform::_preprocess adds its variables with Db::addColumnsByConstant: never registered *)
 Theorem C19_CalcAnamTransform_refuted : exists din fs fk s',
@@ -167,6 +170,7 @@ Proof.
   split; [apply invb_sound; vm_compute; reflexivity|].
   split; [vm_compute; reflexivity | refute_out].
 Qed.
+Print Assumptions C19_CalcAnamTransform_refuted.
 
 (* conditional turning bands: the simulations at the data points are temporary variables of dbin *)
 Theorem C19_CalcSimuTurningBands_refuted : exists din dout fs fk s',
@@ -177,6 +181,7 @@ Proof.
   split; [apply invb_sound; vm_compute; reflexivity|]. split; [apply invb_sound; vm_compute; reflexivity|].
   split; [vm_compute; reflexivity | refute_out].
 Qed.
+Print Assumptions C19_CalcSimuTurningBands_refuted.
 
 (* dbg2gShrink: auxiliary temporary variable in dbout *)
 Theorem C19_CalcGridToGrid_shrink_refuted : exists din dout fs fk s',
@@ -186,6 +191,20 @@ Proof.
   split; [apply invb_sound; vm_compute; reflexivity|]. split; [apply invb_sound; vm_compute; reflexivity|].
   split; [vm_compute; reflexivity | refute_out].
 Qed.
+Print Assumptions C19_CalcGridToGrid_shrink_refuted.
+
+(* external drift known on the output grid only: ACalcInterpolator::_preprocess migrates it into dbin
+   (nested CalcMigrate, never registered, never removed): dbin is changed after a SUCCESS as well as after a failure *)
+Theorem C19_CalcKriging_external_drift_refuted : exists din dout s1 s2,
+  Inv din /\ Inv dout /\
+  calc_run (kriging cfg_extdrift true) (init_st din dout false) 0 0%nat = (true, s1) /\ ~ db_eq (s_in s1) din /\
+  calc_run (kriging cfg_extdrift true) (init_st din dout false) 3 0%nat = (false, s2) /\ ~ db_eq (s_in s2) din.
+Proof.
+  exists w_din, w_dout_f. eexists. eexists.
+  split; [apply invb_sound; vm_compute; reflexivity|]. split; [apply invb_sound; vm_compute; reflexivity|].
+  split; [vm_compute; reflexivity|]. split; [refute_out|]. split; [vm_compute; reflexivity | refute_out].
+Qed.
+Print Assumptions C19_CalcKriging_external_drift_refuted.
 
 (* a failure arriving after _postprocess (only reachable by injection or by an exception): the naming
    convention has already cleared the Z locators of dbout *)
@@ -198,6 +217,7 @@ Proof.
   split; [apply invb_sound; vm_compute; reflexivity|]. split; [apply invb_sound; vm_compute; reflexivity|].
   split; [vm_compute; reflexivity|]. split; [vm_compute; reflexivity|]. split; [vm_compute; reflexivity | vm_compute; discriminate].
 Qed.
+Print Assumptions C19_failure_after_postprocess_refuted.
 
 (* --------------------------------------------------------------------------------------------- candidate fixes
    With the roll-back of fixes/C19_1.patch (clean both lists, restore the coordinate locators) the witnesses above are restored *)
